@@ -23,13 +23,14 @@ def mutest(diff, pid):
 def main():
     only = set(sys.argv[1:])
     for d in sorted(glob.glob(os.path.join(UNV, 'C*'))):
-        pid = os.path.basename(d)
-        if only and pid not in only:
+        tag = os.path.basename(d)
+        pid = tag[:3]
+        if only and tag not in only and pid not in only:
             continue
         for diff in sorted(glob.glob(os.path.join(d, 'mut*.diff'))):
             n = re.search(r'mut(\d+)\.diff', diff).group(1)
             cf = os.path.join(d, 'mut%s_confirm.json' % n)
-            dest = os.path.join(ROOT, 'seeded', '%s-%s' % (pid, n))
+            dest = os.path.join(ROOT, 'seeded', '%s-%s' % (tag, n))
             if not os.path.exists(cf) or os.path.exists(os.path.join(dest, 'meta.json')):
                 continue
             c = json.load(open(cf))
